@@ -10,9 +10,11 @@ use std::collections::BTreeMap;
 pub struct ScriptGen {
     pub rng: Rng,
     label_texts: Vec<String>,
+    name_shift: usize,
 }
 
-const VAR_NAMES: [&str; 8] = ["x", "ν1", "v_2", "a", "foo", "ν", "Z9", "φ"];
+// case-colliding (x/X), prefix-colliding (a/ab) and digit-only names on purpose
+const VAR_NAMES: [&str; 12] = ["x", "ν1", "X", "a", "ab", "v_2", "1", "foo", "ν", "Z9", "φ", "A"];
 const COMMENTS: [&str; 7] = ["c", "ADD(1);", ") oops", "# nested", "; ; ;", "ν3 $v", "PUT(0, zz"];
 
 impl ScriptGen {
@@ -22,7 +24,9 @@ impl ScriptGen {
             .map(label_show)
             .filter(|t| spec_label(t).is_some() && !t.contains([',', ')', '(', ';', '#', '$']))
             .collect::<Vec<_>>();
-        Self { rng: Rng::new(seed), label_texts }
+        let mut rng = Rng::new(seed);
+        let name_shift = rng.below(VAR_NAMES.len());
+        Self { rng, label_texts, name_shift }
     }
 
     /// Generate a program of min..=max commands legal for model `m`; returns AST and rendering.
@@ -49,7 +53,7 @@ impl ScriptGen {
                     // ADD: new variable, literal absent, literal present
                     match self.rng.below(10) {
                         0..=4 if vars.len() < 6 => {
-                            let name = VAR_NAMES[vars.len() % VAR_NAMES.len()].to_string();
+                            let name = VAR_NAMES[(vars.len() + self.name_shift) % VAR_NAMES.len()].to_string();
                             if vars.contains_key(&name) {
                                 None
                             } else {
